@@ -1,6 +1,6 @@
-Require Import DS.Base DS.Parser DS.Expansion DS.EvalSer.
+Require Import DS.Base DS.Parser DS.ParserIx DS.Expansion DS.ExpansionIx DS.EvalSer DS.EvalSerIx.
 Require Import ExtrOcamlBasic.
 Extraction Language OCaml.
 Extraction "../ocaml/gen/c09_model.ml" N.of_nat N.to_nat Z.of_N Z.to_N
-  env_of_list serialise eval_parse eval_call
+  env_of_list serialise eval_parse eval_call eval_parse_ix eval_call_ix
   safe safe_simple head_ok last_ok is_cmd cls_NL cls_Q cls_H cls_D cls_B cls_P cls_E cls_W.
